@@ -2,8 +2,8 @@
    Proto/ListenerProofs.v, Proto/Flow.v, Props/C06_lemmas.v).  Proof for the protocol logic;
    wake-up delivery and fairness of the select loops are explored by harness `sched`, not proved. *)
 From stdpp Require Import gmap list.
-From Aldrin Require Import gen.ClientConsts Broker.Model Proto.ClientView Proto.ListenerProofs Proto.Flow
-  Props.C06_lemmas.
+From Aldrin Require Import gen.ClientConsts Broker.Model Proto.ClientView Proto.ClientViewProofs Proto.ReplyProofs
+  Proto.CallProofs Proto.ListenerProofs Proto.ChanEndsProofs Proto.Flow Props.C06_lemmas.
 Local Open Scope N_scope.
 
 (* ---- channel ends: the handle-side typestate + the client's maps + the broker's channel entry.
@@ -16,10 +16,30 @@ Theorem C06_channel_ends_refuted :
 Proof. exact (ex_intro _ w_refused_claim refused_claim_awaited_panics). Qed.
 Print Assumptions C06_channel_ends_refuted.
 
-(* the same statement for whichever shape tools/rs2v.py reads from unclaimed.rs / client.rs *)
-Theorem C06_channel_ends_this_tree : f1_statement CLAIM_REFUSED_MARKS_CLOSED CLOSE_REPLY_ASSERTS.
-Proof. exact (f1_by_shape CLAIM_REFUSED_MARKS_CLOSED CLOSE_REPLY_ASSERTS). Qed.
+(* with the repaired error path of claim() (the Err path marks the raw channel closed) and every
+   claim awaited to completion: for every creator, either claimed end, any other connections and
+   EVERY schedule of application operations (bind, claim, finish, drop/close, unbind, establish,
+   send, add capacity), handle-queue steps, broker steps, receive steps and disconnects, no client
+   rejects a message or trips an assertion (create/claim/close/closed/claimed/item/capacity, a
+   close racing a claim included); whether or not msg_close_channel_end_reply keeps its assertion *)
+Theorem C06_channel_ends :
+  forall fl, fl_refused_closed fl = true -> fl_cancel fl = false ->
+  forall k c0 ec others sched,
+    (forall c, run fl (created k c0 ec others) sched <> CReject c) /\
+    (forall c site, run fl (created k c0 ec others) sched <> CPanic c site).
+Proof. exact channel_ends_positive. Qed.
+Print Assumptions C06_channel_ends.
+
+(* what holds for the shape tools/rs2v.py reads from unclaimed.rs / client.rs of the working tree:
+   the refutation above for the pinned commit, the positive theorem once the repair is in *)
+Theorem C06_channel_ends_this_tree : this_tree_statement CLAIM_REFUSED_MARKS_CLOSED CLOSE_REPLY_ASSERTS.
+Proof. exact (this_tree_by_shape CLAIM_REFUSED_MARKS_CLOSED CLOSE_REPLY_ASSERTS). Qed.
 Print Assumptions C06_channel_ends_this_tree.
+
+(* the witness of the refutation itself, for either shape *)
+Theorem C06_refused_claim_witness : f1_statement CLAIM_REFUSED_MARKS_CLOSED CLOSE_REPLY_ASSERTS.
+Proof. exact (f1_by_shape CLAIM_REFUSED_MARKS_CLOSED CLOSE_REPLY_ASSERTS). Qed.
+Print Assumptions C06_refused_claim_witness.
 
 (* known findings that the repaired error path does not cure: a claim future dropped while its
    request is in flight, and a second bind of an end the client already holds *)
@@ -33,6 +53,54 @@ Theorem C06_double_bind_refuted :
   forall fl, fl_cancel fl = true -> exists sched, run fl (created 7 1 CSender []) sched = CPanic 1 S_SEND_ITEM_ABSENT.
 Proof. exact (fun fl H => ex_intro _ w_double_bind (double_bind_panics fl H)). Qed.
 Print Assumptions C06_double_bind_refuted.
+
+(* ---- reply matching, for the 17 request kinds the broker answers in the step in which it handles
+   the request: in the composed system FULL view + FIFOs + any broker that keeps the reply contract
+   (exactly one reply of the same kind and serial per such request, no such reply otherwise), for
+   every schedule of sends (serials allocated like SerialMap::insert), broker steps, notifications
+   and receive steps, a reply never arrives with its serial not pending *)
+Theorem C06_reply_matching :
+  forall asserts ver ops K s, rrun asserts {| r_v := view0 ver; r_up := []; r_down := [] |} ops <> RUnmatched K s.
+Proof. exact reply_matching. Qed.
+Print Assumptions C06_reply_matching.
+
+(* ---- calls: one service of a client; whatever the application does with the Service (destroy any
+   number of times, never awaited), while calls arrive as long as the broker knows the service,
+   abort notices arrive, the object is destroyed under it and calls are answered: CallFunction only
+   ever arrives for a cookie in `services`, DestroyServiceReply(Ok) finds the entry, a new call's
+   abort handle is new (the broker's call serials being distinct) *)
+Theorem C06_calls : forall sc ops, exists z, wrun sc wcreated ops = WOk z.
+Proof.
+  exact (fun sc ops => match wrun sc wcreated ops as r
+                             return (match r with WOk _ => True | _ => False end -> exists z, r = WOk z) with
+                       | WOk z => fun _ => ex_intro _ z eq_refl
+                       | _ => fun H => match H with end
+                       end (calls_never_rejected sc ops)).
+Qed.
+Print Assumptions C06_calls.
+
+(* ---- the slices of the three composed systems ARE the acceptance automaton restricted to one
+   cookie: same verdict, related results, on every message about that cookie *)
+Theorem C06_channel_slice_is_recv :
+  forall fl k v x m, crel k v x -> about k v m ->
+    match crecv fl x m, recv_with (fl_close_asserts fl) true v m with
+    | ROk x', Acc v' [] => crel k v' x' | RRej, Rej => True | RPan s, Pan s' => s = s' | _, _ => False end.
+Proof. exact crecv_is_recv. Qed.
+Print Assumptions C06_channel_slice_is_recv.
+
+Theorem C06_listener_slice_is_recv :
+  forall asserts alive k v z m, lrel k v z -> labout k v m ->
+    match lrecv z m, recv_with asserts alive v m with
+    | LcOk z', Acc v' [] => lrel k v' z' | LcRej, Rej => True | LcPan s, Pan s' => s = s' | _, _ => False end.
+Proof. exact lrecv_is_recv. Qed.
+Print Assumptions C06_listener_slice_is_recv.
+
+Theorem C06_service_slice_is_recv :
+  forall asserts alive sc v z m, wrel sc v z -> wabout sc v m ->
+    match wrecv alive z m, recv_with asserts alive v m with
+    | WcOk z', Acc v' _ => wrel sc v' z' | WcRej, Rej => True | WcPan s, Pan s' => s = s' | _, _ => False end.
+Proof. exact wrecv_is_recv. Qed.
+Print Assumptions C06_service_slice_is_recv.
 
 (* ---- bus listeners: whatever the application does with a listener (start, stop, destroy, any
    number of times, without awaiting), in every interleaving with the broker and with untagged
